@@ -292,7 +292,11 @@ def classify_failfs(d, fnvfs_known):
                 continue
             c.problems.append("assignment to a wrapper field in %s: %s" % (f["name"], s))
 
-    table, notes = [], []
+    table, notes, fields = [], [], []
+
+    def flagidx(flds):
+        idx = [i for (f, i) in flds if f == "FpFlag"]
+        return "(Some %d)" % idx[0] if len(idx) == 1 else "None"
 
     def put(m, k, why=""):
         table.append((m, k))
@@ -360,8 +364,8 @@ def classify_failfs(d, fnvfs_known):
                 if flds is None or k is None or not fail_ok or m.group(2) not in fnvfs_known:
                     put(("V", name), "KUnrecognised", "consults %s; %s" % (m.group(2), "tail not recognised" if k is None else "FailParam/fail/Fn id not recognised"))
                 else:
-                    put(("V", name), "KConsult %s [%s] (%s)" % (m.group(2), "; ".join("(%s, %d)" % x for x in flds), k) if " " in k
-                        else "KConsult %s [%s] %s" % (m.group(2), "; ".join("(%s, %d)" % x for x in flds), k))
+                    fields.append((("V", name), flds))
+                    put(("V", name), "KConsult %s %s %s" % (m.group(2), flagidx(flds), "(%s)" % k if " " in k else k))
                 continue
             k = tail_vfs(name, rv, params, body)
             put(("V", name), k or "KUnrecognised", "body shape not recognised")
@@ -381,7 +385,8 @@ def classify_failfs(d, fnvfs_known):
                 good = (flds is not None and m2 and m2.group(1) == name and args_verbatim(params, m2.group(2)) and fail_ok
                         and helper_ok and m.group(2) in fnvfs_known)
                 if good:
-                    put(("F", name), "KConsult %s [%s] KFwd" % (m.group(2), "; ".join("(%s, %d)" % x for x in flds)))
+                    fields.append((("F", name), flds))
+                    put(("F", name), "KConsult %s %s KFwd" % (m.group(2), flagidx(flds)))
                 else:
                     put(("F", name), "KUnrecognised", "consults %s; rest not recognised" % m.group(2))
                 continue
@@ -448,7 +453,7 @@ def classify_failfs(d, fnvfs_known):
                     or not args_verbatim(f["params"], re.fullmatch(r"return avfs\.%s\(%s(?:, (.*))?\)" % (name, f["recv_var"]), f["body"]).group(1) or ""):
                 base_generic = False
                 base_notes.append("%s.%s is not avfs.%s(vfs, ...)" % (typ, name, name))
-    return c, table, notes, ro_cases, ro_default, ro_problems, okfunc_nil, new_ok, base_generic, base_notes
+    return c, table, notes, ro_cases, ro_default, ro_problems, okfunc_nil, new_ok, base_generic, base_notes, fields
 
 
 # ---------------------------------------------------------------------------
@@ -526,13 +531,16 @@ def generate():
     gen.write_if_changed(os.path.join(WRAP, "Gen_rofs.v"), body)
 
     # ---- FailFS
-    c, table, notes, ro_cases, ro_default, ro_problems, okfunc_nil, new_ok, base_generic, base_notes = classify_failfs(d, set(fn_ok))
+    c, table, notes, ro_cases, ro_default, ro_problems, okfunc_nil, new_ok, base_generic, base_notes, fields = classify_failfs(d, set(fn_ok))
     unk = list(c.problems) + ro_problems
     body = HEADER % (repo + "/vfs/failfs", "Kind of every method of FailFS and FailFile, ReadOnlyFunc's case list, OkFunc, and whether MemFS/OrefaFS build their composites from the generic functions of vfs.go.")
     body += "From Coq Require Import String.\nFrom Avfs Require Import Base Wrapper.\n\n"
     if notes or base_notes:
         body += "(* unrecognised:\n   %s *)\n" % "\n   ".join(str(n) for n in notes + base_notes)
     body += emit_table("failfs_table", table, known, unk)
+    body += "\n(* FailParam fields fed from the method's parameters (field, argument number) - documentation of the consultation *)\n"
+    body += "Definition failfs_fields : list (meth * list (fpfield * nat)) :=\n  %s.\n" % coq_list(
+        ["(%s %s_%s, [%s])" % ("MV" if t == "V" else "MF", t, n, "; ".join("(%s, %d)" % x for x in fl)) for (t, n), fl in fields], per=1)
     body += "\nDefinition ro_cases : list (list fnvfs * rokind) :=\n  %s.\n" % coq_list(
         ["(%s, %s)" % (coq_list(ids, per=8, indent="     "), k) for ids, k in ro_cases], per=1)
     body += "Definition ro_default : rokind := %s.\n" % ro_default
